@@ -621,6 +621,18 @@ impl<'p> Interp<'p> {
                         Some((_, v)) => v.clone(),
                         None => match d {
                             Some(d) => {
+                                // the language does not say whether a default value may refer to other parameters
+                                let mut mentions_param = false;
+                                crate::fam::walk(d, &mut |x| {
+                                    if let E::Var(v) = x {
+                                        if fd.params.iter().any(|(p, _)| p.split(':').next().unwrap() == v) {
+                                            mentions_param = true;
+                                        }
+                                    }
+                                });
+                                if mentions_param {
+                                    return Err(EvalErr::Undefined("default value refers to another parameter".into()));
+                                }
                                 let mut e2 = self.globals.clone();
                                 self.eval(d, &mut e2, &ch, None)?
                             }
